@@ -393,6 +393,7 @@ type Aggregator struct {
 	Discarded    int
 	Tags         []string
 	ReportTimes  []time.Time
+	ReportG      []int64
 	kCh          chan struct{}
 	kOnce        sync.Once
 	RunStarted   atomic.Bool
@@ -449,6 +450,7 @@ func (a *Aggregator) Report(s core.Sample) {
 		if a.KeepTags {
 			a.Tags = append(a.Tags, ns.Tags())
 			a.ReportTimes = append(a.ReportTimes, now)
+			a.ReportG = append(a.ReportG, vf.GoID())
 		}
 	}
 	a.mu.Unlock()
